@@ -30,6 +30,17 @@ type LZTop struct {
 	LZMid
 	LZOther
 }
+type LTSInner struct{ Count int }
+type LTagShadow struct {
+	LTSInner
+	Count int `json:"count"`
+	Extra int `json:",omitempty"`
+}
+type LUni struct {
+	Éclair int
+	Ωmega  string
+	A      int
+}
 type LHold struct {
 	PIn *LIn
 	F   func(int) int
@@ -198,6 +209,16 @@ func latSpecials() []latSpecial {
 	}
 	add("promoted fields: the shallower one wins (read)", depth, "c.X", reads("d:2"))
 	add("promoted fields: the shallower one wins (write)", depth, "c.X = 7; c.X", wrote("d:7", "7 1"))
+	tagsh := func(vm *otto.Otto) func() string {
+		z := &LTagShadow{LTSInner{1}, 2, 3}
+		vm.Set("c", z)
+		return func() string { return fmt.Sprint(z.Count, z.LTSInner.Count, z.Extra) }
+	}
+	add("tagged own field shadows a promoted field of the same Go name (read by Go name)", tagsh, "c.Count", reads("d:2"))
+	add("tagged own field shadows a promoted field of the same Go name (write by Go name)", tagsh, "c.Count = 7; c.Count", wrote("d:7", "7 1 3"))
+	add("tagged own field: read and write by tag", tagsh, "c.count = 8; c.count", wrote("d:8", "8 1 3"))
+	add("field with a nameless json tag: write by Go name", tagsh, "c.Extra = 9; c.Extra", wrote("d:9", "2 1 9"))
+	add("tagged own field: compound assignment by Go name", tagsh, "c.Count += 40; c.Count", wrote("d:42", "42 1 3"))
 	// holder: pointer field aliases, func fields, nested slices
 	hold := func(vm *otto.Otto) func() string {
 		h := &LHold{PIn: &LIn{1}, L: []int{1, 2}, M: map[string][]int{"k": {1}}, Sl: []LIn{{1}}, Mv: map[string]LIn{"a": {1}}}
@@ -205,7 +226,33 @@ func latSpecials() []latSpecial {
 		return func() string { return fmt.Sprint(len(h.L), len(h.M["k"]), h.Sl[0].X, h.Mv["a"].X, h.PIn != nil) }
 	}
 	add("stale alias of a pointer field set to null", hold, "var q = c.PIn; c.PIn = null; q.X", func(out latRun, g string) string { return "" })
-	add("alias of a pointer field after replacement", hold, "var q = c.PIn; c.PIn = {X: 2}; [q.X, c.PIn.X].join()", noPanic)
+	add("alias of a pointer field after replacement", hold, "var q = c.PIn; c.PIn = {X: 2}; [q.X, c.PIn.X].join()", reads("s:1,2"))
+	add("alias of a pointer field after the field is set to null", hold, "var q = c.PIn; c.PIn = null; q.X", func(out latRun, g string) string {
+		if out.status == "loud" || out.value == "d:1" {
+			return ""
+		}
+		return "the retained reference reads " + out.value + " (the object it was read from has X = 1)"
+	})
+	uni := func(vm *otto.Otto) func() string {
+		u := &LUni{Éclair: 3, Ωmega: "w", A: 1}
+		vm.Set("c", u)
+		return func() string { return fmt.Sprintf("%d %s %d", u.Éclair, u.Ωmega, u.A) }
+	}
+	add("exported field with a non-ASCII capital: read", uni, "[c.Éclair, c.Ωmega, Object.keys(c).sort().join()].join()", reads(`s:3,w,A,\u00C9clair,\u03A9mega`))
+	add("exported field with a non-ASCII capital: write", uni, "c.Éclair = 4; c.Éclair", wrote("d:4", "4 w 1"))
+	add("Object.defineProperty on a Go field (value)", uni, `Object.defineProperty(c, "A", {value: 5}); c.A`, wrote("d:5", "3 w 5"))
+	add("Object.defineProperty on a Go field (getter)", uni, `Object.defineProperty(c, "A", {get: function(){ return 9 }}); c.A`, func(out latRun, g string) string {
+		if out.status == "loud" || (out.value == "d:1" && g == "3 w 1") {
+			return ""
+		}
+		return "defining an accessor on a Go field: script reads " + out.value + ", Go side " + g
+	})
+	add("Object.defineProperty on a Go field (inconvertible value)", uni, `Object.defineProperty(c, "A", {value: "x"}); c.A`, func(out latRun, g string) string {
+		if out.status == "loud" && g == "3 w 1" {
+			return ""
+		}
+		return "defineProperty with an inconvertible value: " + out.status + " " + out.value + ", Go side " + g
+	})
 	add("nil func field: typeof and call", hold, "c.F(1)", func(out latRun, g string) string {
 		if out.status == "loud" {
 			return ""
